@@ -28,7 +28,7 @@ NT_FLOOR = 0.1
 def plan_st(draw, tier):
     cfg = draw(gen.config_st(arm_kinds=("int", "str", "float", "mix"), max_arms=4, with_binarizer=True, scale_ok=True,
                              n_jobs_choices=(1, 1, 1, 1, 1, 2), defaults_ok=True, metrics=gen.SAFE_METRICS))
-    h = gen.History(draw, cfg, max_rows=8, query_rows=(1, 2, 3, 6), series_queries=True)
+    h = gen.History(draw, cfg, max_rows=8, query_rows=(1, 2, 3, 6), series_queries=True, refit_new_d=True)
     h.fit() if draw(st.integers(0, 3)) else h.partial_fit()
     for _ in range(draw(st.integers(0, 5))):
         gen.step_any(h, gen.TRAIN_KINDS + gen.ARM_KINDS + gen.WARM_KINDS + ["predict"], True)
